@@ -31,7 +31,7 @@ BORROW = {
     "C01": [("C15", "r15_1"), ("C15", "r15_5")] + INTER + POINT + COMPOSITE + CONTAIN + SIGN + CHAIN,
     # point membership: orientation sign, on-curve test, angle wrap
     "C02": [("C18", "r18_5"), ("C18", "r18_6"), ("C18", "r18_11"), ("C12", "r12_2"), ("C17", "r17_9"), ("C18", "r18_13"),
-            ("C18", "r18_14")] + SIGN + ALGEBRA,
+            ("C18", "r18_14"), ("C06", "r06_4")] + SIGN + ALGEBRA,          # R06.4: the shapes asked are grouped by ShapeFromJordans
     # containment samples points of the candidate and uses its crossings with the boundary and the areas
     "C03": [("C02", "r02_1"), ("C02", "r02_2"), ("C02", "r02_3b"), ("C18", "r18_9"), ("C18", "r18_5")] + INTER[:6] + SIGN + FLOATS,
     # measures of operator results: the whole operator pipeline
@@ -72,7 +72,8 @@ BORROW = {
     # factories build their curve through from_vertices / the segments setter
     # the pieces of a split are cut by the segment-level splitters
     "C15": [("C18", "r18_10")],
-    "C16": CHAIN + SIGN + VERTICES + [("C02", "r02_1"), ("C02", "r02_2")],     # ... and are observed through `p in shape`
+    # ... and are observed through `p in shape`; for the circle that is the winding number of quadratic arcs
+    "C16": CHAIN + SIGN + VERTICES + [("C02", "r02_1"), ("C02", "r02_2"), ("C18", "r18_8"), ("C18", "r18_9")],
     # directly constructed composites answer containment like the operator-built ones
     "C19": [("C03", "r03_2"), ("C03", "r03_2b"), ("C03", "r03_3"), ("C04", "r04_1")],      # ... and has the moments of its members
     # fills and outlines are decided by the orientation sign
